@@ -18,11 +18,14 @@ class Seq:
         self.header = header
         self.cfg = cfg
         self.lines = []  # (lineno, op_tokens, obs, summary, raw_op)
+        self.queries = {}   # name -> list of parameter descriptors
+        self.info = {}      # lineno of an op line -> implementation-side info line that followed it
 
 
 def parse_trace(path):
     cfg = {}
     archs = []
+    queries = {}
     seqs = []
     cur = None
     with open(path, errors="replace") as f:
@@ -31,6 +34,7 @@ def parse_trace(path):
             if line.startswith("cfg "):
                 cfg = dict(kv.split("=") for kv in line.split()[1:])
                 archs = []
+                queries = {}
                 continue
             if line.startswith("arch "):
                 t = line.split()
@@ -38,11 +42,18 @@ def parse_trace(path):
                               "comps": [c.split(":") for c in t[4:]]})
                 continue
             if line.startswith("query "):
+                t = line.split()
+                if len(t) >= 3:
+                    queries[t[1]] = t[2].split(";")
                 continue
             if line.startswith("seq "):
                 cur = Seq(line, dict(cfg))
                 cur.archs = archs
+                cur.queries = queries
                 seqs.append(cur)
+                continue
+            if line.startswith("#") and cur is not None and cur.lines and " => " not in line:
+                cur.info[cur.lines[-1][0]] = line
                 continue
             if " => " not in line or cur is None:
                 continue
@@ -68,6 +79,8 @@ def hit(prop, seq, no, op, what, cls):
     return {"property": prop, "seq": seq.header, "line": no, "op": op, "what": what, "class": cls}
 
 
+READONLY_OPS = ("probe", "conv", "cmp", "switch", "dump", "rows", "events", "clone", "end")
+VIEW_FIELDS = ("tv", "tb", "twv", "twb", "yv", "yb")
 ACCEPT_FIELDS_T = ["tc", "tr", "td", "tv", "tb", "twc", "twd", "twv", "twb"]
 ACCEPT_FIELDS_Y = ["yc", "yr", "yd", "yv", "yb", "ywc", "ywd"]
 
@@ -94,6 +107,11 @@ class WorldTrack:
         self.var_live = {}    # create-variable -> words   (identity of the entity, not of its bits)
         self.var_dead = {}
         self.removals = defaultdict(int)   # archetype -> number of removals so far (C09)
+        self.vals = {}        # component token -> value last written through ANY path (C02)
+        self.vals_ok = True   # False once a write could not be attributed to an entity
+        self.epoch = 0        # bumped by every op that may change the world (C13)
+        self.clone_of = None  # (source world index, source epoch at clone time, token map)
+        self.probes = {}      # var -> (epoch, fields) of the last probe in this world (C13)
 
     def by_token(self, toks):
         for words, (a, row) in self.live.items():
@@ -124,6 +142,8 @@ class WorldTrack:
         w.caps = self.caps
         w.created = defaultdict(list, {k: list(v) for k, v in self.created.items()})
         w.destroyed = defaultdict(list, {k: list(v) for k, v in self.destroyed.items()})
+        w.vals = {(tokmap.get(t, t) if tokmap else t): v for t, v in self.vals.items()}
+        w.vals_ok = self.vals_ok
         return w
 
 
@@ -167,6 +187,8 @@ def check_seq(seq, stats):
         w = worlds[cur] if cur < len(worlds) else None
         kind = op[0]
         summary = parse_summary(summ)
+        if w is not None and kind not in READONLY_OPS:
+            w.epoch += 1
         if "REGISTRY-ERROR" in obs:
             hits.append(hit("C04", seq, no, raw, obs[obs.index("REGISTRY-ERROR"):], "registry"))
         if any(s[3] for s in summary):
@@ -220,6 +242,11 @@ def check_seq(seq, stats):
                     if wd == words:          # the same bits issued again while believed alive: keep both views
                         pass
                 w.live[words] = (a, [t.split(":")[0] for t in op[4:]])
+                for t in op[4:]:
+                    if ":" in t:
+                        tk, vl = t.split(":", 1)
+                        if tk != "0":
+                            w.vals[tk] = vl
                 w.var_live[var] = words
                 hvars[var] = ("e", words, a, False)
                 w.created[a].append(words)
@@ -253,6 +280,14 @@ def check_seq(seq, stats):
                 # a component's Drop panicked while the destroyed tuple was being dropped: the
                 # entity had already been removed (all its components are in the drop list)
                 obs = "some" + obs[len("panic Injected"):]
+            # C19: what `wrapping_version` documents, and nothing else: at the 2^32 boundary the
+            # destroy wraps WITH the feature and panics (changing nothing) WITHOUT it
+            if hv and hv[0] == "e" and not hv[3] and w is not None and hv[1] in w.live and var not in w.var_dead:
+                pcls = obs.split()[1] if obs.startswith("panic") and len(obs.split()) > 1 else None
+                if wrapping and pcls in ("Other", "SlotOverflow", "ArchOverflow", "IndexOob"):
+                    hits.append(hit("C19", seq, no, raw, f"with wrapping_version enabled, destroying the live entity {hv[1]} panicked ({pcls}); the feature documents wraparound in place of the generation-overflow panic, in every build profile", "wrapping-destroy-panics"))
+                if not wrapping and obs.startswith("some") and hv[1].endswith(".4294967295") and w.live[hv[1]][0] == hv[2] and not op[4:]:
+                    hits.append(hit("C19", seq, no, raw, f"without wrapping_version, destroying {hv[1]} (generation 2^32-1) succeeded instead of panicking: the generation wrapped although the feature is off", "overflow-wrapped-without-feature"))
             if hv is None and obs.startswith("some"):
                 hv = ("d", "?", None, False)   # a direct handle saved from a query closure
             if hv and obs.startswith("some"):
@@ -262,6 +297,7 @@ def check_seq(seq, stats):
                 parts = obs.split()
                 if len(parts) > 1 and "=" not in parts[1]:
                     toks = [x.split(".")[0] for x in parts[1].split(",")]
+                    check_vals(seq, no, raw, w, [tuple(x.split(".", 1)) for x in parts[1].split(",") if "." in x], hits, "the tuple returned by destroy")
                 for pt in parts[1:]:
                     if pt.startswith("drops="):
                         toks += pt[6:].split(",")
@@ -291,11 +327,65 @@ def check_seq(seq, stats):
                     a_live = w.live[hv[1]][0]
                     if hv[2] == a_live:
                         hits.append(hit("C01", seq, no, raw, f"destroy rejected live handle {hv[1]}", "live-rejected"))
+        elif kind == "write":
+            # write <path> <var> <col> <val>
+            if obs.startswith("ok") and w is not None:
+                hv = hvars.get(op[2])
+                col = int(op[3])
+                tok = None
+                if hv and hv[0] == "e" and not hv[3] and hv[1] in w.live and op[2] not in w.var_dead:
+                    row = w.live[hv[1]][1]
+                    tok = row[col] if col < len(row) else None
+                else:
+                    di = direct_issued.get(op[2])
+                    if di is not None and di["world"] == cur and w.removals[di["arch"]] == di["removals"] and col < len(di["toks"]):
+                        tok = di["toks"][col]
+                if tok is None:
+                    w.vals_ok = False
+                elif tok != "0":
+                    w.vals[tok] = op[4]
+        elif kind == "rows":
+            if w is not None and obs.startswith("rows"):
+                body = obs[5:]
+                pm = re.search(r" paths=(\S+)", obs)
+                if pm:
+                    body = obs[5:obs.index(" paths=")]
+                    if pm.group(1) != "ok":
+                        hits.append(hit("C02", seq, no, raw, f"the access paths of archetype {op[1]} disagree with each other: {pm.group(1)}", "paths-disagree"))
+                for r in body.split("|"):
+                    if ":" in r:
+                        check_vals(seq, no, raw, w, view_pairs("@" + r), hits, "get_slice / iter / view of the archetype")
+        elif kind == "nest":
+            hits.extend(check_nest(seq, no, op, obs, raw, w, archs, id2arch, hvars))
+        elif kind == "cmp":
+            m = re.match(r"k=(\w) a=(\S+) b=(\S+) any=(\S+) t=\[(.*?)\]", obs)
+            if m:
+                exp = "101" if m.group(2) == m.group(3) else "01-"
+                what = "equal handles must compare equal and hash equally" if exp == "101" else "handles that differ in a word are handles of distinct entities and must compare unequal"
+                if m.group(4) != exp:
+                    hits.append(hit("C14", seq, no, raw, f"{m.group(2)} vs {m.group(3)} (dynamically typed): ==/!=/hash gave {m.group(4)}, expected {exp}: {what}", "eq-hash"))
+                ia = int(m.group(2).split(".")[0]) & 0xff
+                ib = int(m.group(3).split(".")[0]) & 0xff
+                for a, tv_ in enumerate(m.group(5).split()):
+                    if a >= len(ids):
+                        break
+                    both = ia == ids[a] and ib == ids[a]
+                    if both and tv_ != exp:
+                        hits.append(hit("C14", seq, no, raw, f"{m.group(2)} vs {m.group(3)} typed for archetype {a}: ==/!=/hash gave {tv_}, expected {exp}: {what}", "eq-hash-typed"))
+                    if not both and tv_ != "-":
+                        hits.append(hit("C14", seq, no, raw, f"try_from into archetype {a} succeeded for a handle whose archetype id differs", "try-from"))
         elif kind == "todirect":
             if obs.startswith("d "):
-                hvars[op[4]] = ("d", obs.split()[1], None, False)
                 src = hvars.get(op[3])
                 dw = obs.split()[1]
+                # the harness types the new variable like its source (or `@arch`), except for the
+                # world-level dynamically typed call, whose result is typed by its own id
+                did_ = int(dw.split(".")[0]) & 0xff
+                at_ = next((int(t_[1:]) for t_ in op[5:] if t_.startswith("@")), None)
+                st_ = at_ if at_ is not None else (src[2] if src else None)
+                if op[1] == "w" and op[2] == "y":
+                    st_ = id2arch.get(did_, st_)
+                hvars[op[4]] = ("d", dw, st_, st_ is not None and st_ < len(ids) and ids[st_] != did_)
                 da = id2arch.get(int(dw.split(".")[0]) & 0xff)
                 # C09: remember for which entity (by its component tokens) and at which removal count of
                 # its archetype the handle was issued -- only when the source is an entity variable whose
@@ -339,6 +429,56 @@ def check_seq(seq, stats):
             hv = hvars.get(op[1])
             f = fields(obs)
             stats["probes"] += 1
+            if w is not None:
+                for name in VIEW_FIELDS:
+                    v = f.get(name)
+                    if v and accepted(name, v) and "@" in v:
+                        check_vals(seq, no, raw, w, view_pairs(v), hits, f"{name} (view/borrow through a handle)")
+                # C13: the same probe on a world and on its untouched clone
+                w.probes[op[1]] = (w.epoch, f)
+                if w.clone_of is not None and w.epoch == w.clone_of[3]:
+                    si, sep, tokmap, _ = w.clone_of
+                    src = worlds[si] if si < len(worlds) else None
+                    if src is not None and src.epoch == sep:
+                        rec = src.probes.get(op[1])
+                        if rec and rec[0] == sep:
+                            clone_compare(seq, no, raw, op[1], rec[1], f, tokmap, hits)
+                            stats["clone_pairs"] += 1
+                for ci, cw in enumerate(worlds):
+                    if cw is not None and cw.clone_of is not None and cw.clone_of[0] == cur and cw.epoch == cw.clone_of[3] and w.epoch == cw.clone_of[1]:
+                        rec = cw.probes.get(op[1])
+                        if rec and rec[0] == cw.epoch:
+                            clone_compare(seq, no, raw, op[1], f, rec[1], cw.clone_of[2], hits)
+                            stats["clone_pairs"] += 1
+            # C03/C09: a direct handle is (dense index, archetype generation): whoever accepts it
+            # although index >= len reads outside the initialised range; although the generation
+            # differs accepts a handle that died with a removal
+            if hv and hv[0] == "d" and summary and w is not None:
+                dk, dv = hv[1].split(".")
+                did = int(dk) & 0xff
+                didx = int(dk) >> 8
+                for name in ACCEPT_FIELDS_T + ACCEPT_FIELDS_Y:
+                    v = f.get(name)
+                    if v is None or not accepted(name, v):
+                        continue
+                    typed = name.startswith("t")
+                    if typed:
+                        if hv[3] or (hv[2] is None and did not in id2arch):
+                            continue     # typed key with a foreign id: F3 territory, judged below / known finding
+                        a_ = hv[2] if hv[2] is not None else id2arch.get(did)
+                    else:
+                        a_ = id2arch.get(did)
+                    if a_ is None or a_ >= len(summary):
+                        if not typed:
+                            hits.append(hit("C03", seq, no, raw, f"direct handle {hv[1]} with an undeclared archetype id is accepted by {name}", "direct-undeclared"))
+                        continue
+                    ln_, _, ver_, _ = summary[a_]
+                    if didx >= ln_:
+                        hits.append(hit("C03", seq, no, raw, f"direct handle {hv[1]} (dense index {didx}) is accepted by {name}={v[:50]} although archetype {a_} holds only {ln_} entities: the access is outside the initialised range", "direct-out-of-range"))
+                        break
+                    if int(dv) != ver_:
+                        hits.append(hit("C03", seq, no, raw, f"direct handle {hv[1]} is accepted by {name} although archetype {a_} is at generation {ver_}: it matches by accident", "direct-generation-mismatch"))
+                        break
             di = direct_issued.get(op[1])
             if di is not None and w is not None and not w.unknown_destroy and not (wrapping and preset_used):
                 # checked in the world the handle was issued in (clones are covered by C13's stream)
@@ -405,6 +545,7 @@ def check_seq(seq, stats):
                         ent = v.split("@")[0]
                         if ent != words:
                             hits.append(hit("C01", seq, no, raw, f"{name} of {words} designates {ent}", "wrong-entity"))
+                            hits.append(hit("C02", seq, no, raw, f"{name} through handle {words} returns the row of {ent}, not the entity's own components", "not-own-row"))
                         toks = [x.split(".")[0] for x in v.split(":", 1)[1].split(",")] if ":" in v else []
                         exp = w.live[words][1]
                         zst = [len(c) > 2 and c[2] == "z" for c in archs[w.live[words][0]]["comps"]]
@@ -424,7 +565,9 @@ def check_seq(seq, stats):
                             if ">" in pr:
                                 a_, b_ = pr.split(">")
                                 tokmap[a_] = b_
-                worlds.append(w.clone(tokmap))
+                nw = w.clone(tokmap)
+                nw.clone_of = (cur, w.epoch, tokmap, nw.epoch)
+                worlds.append(nw)
                 stats["clones"] += 1
         elif kind == "switch":
             if obs.startswith("ok"):
@@ -434,9 +577,16 @@ def check_seq(seq, stats):
         elif kind == "iterd":
             stats["iterd"] += 1
             if w is not None:
+                query_values(seq, no, op, obs, raw, w, hits)
                 hits.extend(check_iterd(seq, no, op, obs, raw, w, archs, ids))
         elif kind in ("iter", "iterb"):
             stats["iters"] += 1
+            if w is not None:
+                hits.extend(check_iter(seq, no, op, obs, raw, w))
+                query_values(seq, no, op, obs, raw, w, hits)
+        elif kind in ("find", "findb"):
+            if w is not None:
+                query_values(seq, no, ["find", op[1]] + op[2:], obs, raw, w, hits)
         elif kind == "end":
             # C04: after every world has been dropped nothing may be left alive, unless a Clone/Drop
             # fault was injected in this sequence (leak-on-panic is not among the guarantees)
@@ -527,3 +677,271 @@ def check_iterd(seq, no, op, obs, raw, w, archs, ids):
     if len(set(known)) != len(known):
         hits.append(hit("C07", seq, no, raw, "an entity was visited twice", "visit-twice"))
     return hits
+
+
+# ----------------------------------------------------------------------------- C02 values
+
+def view_pairs(v):
+    """`ent@idx:tok.val,tok.val` -> [(tok, val)]"""
+    if ":" not in v:
+        return []
+    out = []
+    for x in v.split(":", 1)[1].split(","):
+        if "." in x:
+            t, val = x.split(".", 1)
+            out.append((t, val))
+    return out
+
+
+def check_vals(seq, no, raw, w, pairs, hits, where):
+    """C02 `latest values`: a component token shows the value last written to it through any path."""
+    if w is None or not w.vals_ok:
+        return
+    for tok, val in pairs:
+        if tok == "0":
+            continue
+        exp = w.vals.get(tok)
+        if exp is not None and exp != val:
+            hits.append(hit("C02", seq, no, raw, f"{where} shows component {tok} with value {val}; the value last written to it through any path is {exp}", "stale-value"))
+            return
+
+
+def call_list(obs):
+    m = re.search(r"\[(.*?)\]", obs)
+    if not m or not m.group(1):
+        return []
+    return [c.split(",") for c in m.group(1).split("|")]
+
+
+def query_values(seq, no, op, obs, raw, w, hits):
+    """Values seen by query closures, and the writes the closures make (`add=`: every mutable
+    component parameter receives (value + add) mod 251)."""
+    if w is None:
+        return
+    params = seq.queries.get(op[1])
+    add = 0
+    for t in op[2:]:
+        if t.startswith("add="):
+            add = int(t[4:])
+    for args in call_list(obs):
+        pairs = []
+        for i, arg in enumerate(args):
+            if arg.startswith("c") and "." in arg:
+                tok, val = arg[1:].split(".", 1)
+                pairs.append((tok, val))
+        check_vals(seq, no, raw, w, pairs, hits, "a query closure")
+        for i, arg in enumerate(args):
+            if arg.startswith("c") and "." in arg:
+                tok, val = arg[1:].split(".", 1)
+                if tok == "0":
+                    continue
+                if params is None:
+                    if add:
+                        w.vals.pop(tok, None)
+                    continue
+                if add and i < len(params) and params[i].startswith(("M:", "OM:")):
+                    w.vals[tok] = str((int(val) + add) % 251)
+                else:
+                    w.vals.setdefault(tok, val)
+
+
+# ----------------------------------------------------------------------------- C06
+
+def check_iter(seq, no, op, obs, raw, w):
+    """C06 over one ecs_iter!/ecs_iter_borrow! observation."""
+    hits = []
+    m = re.match(r"n=(\d+) \[(.*?)\] end=(\S+)", obs)
+    if not m or w is None:
+        return hits
+    calls = [c.split(",") for c in m.group(2).split("|")] if m.group(2) else []
+    brk = None
+    for t in op[2:]:
+        if t.startswith("brk="):
+            brk = int(t[4:])
+    n = len(calls)
+    if brk is not None and n > brk + 1:
+        hits.append(hit("C06", seq, no, raw, f"the closure ran {n} times although it returned EcsStep::Break at call {brk}: Break must end the whole query, across all archetypes", "no-stop"))
+    visited = []
+    per_arch = defaultdict(int)
+    exact = not w.unknown_destroy
+    for args in calls:
+        ent = None
+        toks = []
+        for arg in args:
+            if arg.startswith("e"):
+                ent = arg[1:]
+            elif arg.startswith("c"):
+                toks.append(arg[1:].split(".")[0])
+        if ent is None and toks:
+            ent = w.by_token(toks)
+        visited.append(ent)
+        if ent is None or not exact:
+            continue
+        if ent not in w.live:
+            hits.append(hit("C06", seq, no, raw, f"the closure ran for {ent}, which is not a live entity of this world", "visit-dead"))
+            continue
+        row = w.live[ent][1]
+        bad = [t for t in toks if t != "0" and t not in row]
+        if bad:
+            hits.append(hit("C06", seq, no, raw, f"entity {ent} was presented with components {bad} that belong to another entity", "not-own-data"))
+        per_arch[w.live[ent][0]] += 1
+    known = [v for v in visited if v is not None]
+    if len(set(known)) != len(known):
+        hits.append(hit("C06", seq, no, raw, "an entity was visited twice in one pass", "visit-twice"))
+    complete = m.group(3) == "ok" and (brk is None or n <= brk) and exact and all(v is not None for v in visited)
+    if complete:
+        for a, cnt in per_arch.items():
+            nlive = sum(1 for (aa, _) in w.live.values() if aa == a)
+            if cnt != nlive:
+                hits.append(hit("C06", seq, no, raw, f"a complete pass visited {cnt} entities of archetype {a}, which has {nlive} live entities", "missed-entity"))
+    return hits
+
+
+# ----------------------------------------------------------------------------- C11
+
+def query_cells(seq, q, arch, archs, definite=True):
+    """Cells (archetype, column, mode) the runtime-borrowing query macros borrow for `arch`,
+    or None when the query does not match it."""
+    params = seq.queries.get(q)
+    if params is None:
+        return None
+    comps = [c[0] for c in archs[arch]["comps"]]
+    cells = set()
+    for p in params:
+        if p.startswith("C:") or p.startswith("M:"):
+            x = p[2:]
+            if x not in comps:
+                return None
+            cells.add((arch, comps.index(x), "m" if p[0] == "M" else "s"))
+        elif p.startswith("O:") or p.startswith("OM:"):
+            names = p.split(":", 1)[1].split(",")
+            present = [x for x in names if x in comps]
+            if not present:
+                return None
+            mode = "m" if p.startswith("OM:") else "s"
+            if definite and len(present) != 1:
+                continue
+            for x in present:
+                cells.add((arch, comps.index(x), mode))
+        elif p.startswith("E:") or p.startswith("D:"):
+            x = p[2:]
+            if x != "_" and x != archs[arch]["name"]:
+                return None
+    return cells
+
+
+def cells_conflict(a, b):
+    for (x, c, m) in a:
+        for (x2, c2, m2) in b:
+            if x == x2 and c == c2 and (m == "m" or m2 == "m"):
+                return (x, c)
+    return None
+
+
+def check_nest(seq, no, op, obs, raw, w, archs, id2arch, hvars):
+    """C11 over the implementation-side event log of one nested-access tree: every access that
+    was GRANTED conflicts with nothing held around it (no aliasing), and an access that was
+    REFUSED (BorrowError / BorrowMutError) conflicts with something that may be held."""
+    hits = []
+    info = seq.info.get(no)
+    if info is None or not info.startswith("#nest") or w is None:
+        return hits
+    evs = [e.strip() for e in info[5:].split("|")]
+    narch = len(archs)
+    stack = []
+
+    def arch_of_args(args):
+        toks = []
+        for arg in args.split(","):
+            if arg[:1] in ("e", "d") and "." in arg:
+                a = id2arch.get(int(arg[1:].split(".")[0]) & 0xff)
+                if a is not None:
+                    return a
+            elif arg.startswith("c"):
+                toks.append(arg[1:].split(".")[0])
+        ent = w.by_token(toks) if toks else None
+        return w.live[ent][0] if ent in w.live else None
+
+    for e in evs:
+        if not e:
+            continue
+        if e.startswith("A "):
+            d = e[2:].split(":")
+            node = {"desc": e[2:], "kind": d[0], "acq": False, "def": set(), "pos": set(), "q": None}
+            if d[0] == "bs":
+                node["def"] = node["pos"] = {(int(d[1]), int(d[2]), d[3])}
+            elif d[0] == "bc":
+                node["def"] = node["pos"] = {(int(d[1]), int(d[3]), d[4])}
+            elif d[0] == "fb":
+                node["q"] = d[1]
+                hv = hvars.get(d[2])
+                if hv and hv[0] == "e":
+                    a = id2arch.get(int(hv[1].split(".")[0]) & 0xff)
+                    if a is not None:
+                        node["def"] = query_cells(seq, d[1], a, archs, True) or set()
+                        node["pos"] = query_cells(seq, d[1], a, archs, False) or set()
+            elif d[0] == "ib":
+                node["q"] = d[1]
+                for a in range(narch):
+                    node["pos"] = node["pos"] | (query_cells(seq, d[1], a, archs, False) or set())
+            elif d[0] == "cl":
+                node["pos"] = {(a, c, "s") for a in range(narch) for c in range(len(archs[a]["comps"]))}
+            stack.append(node)
+        elif e.startswith("+"):
+            if not stack:
+                continue
+            top = stack[-1]
+            top["acq"] = True
+            if top["kind"] == "ib":
+                a = arch_of_args(e[1:])
+                top["def"] = (query_cells(seq, top["q"], a, archs, True) or set()) if a is not None else set()
+            for anc in stack[:-1]:
+                if anc["acq"]:
+                    c = cells_conflict(top["def"], anc["def"])
+                    if c:
+                        hits.append(hit("C11", seq, no, raw, f"access `{top['desc']}` was granted while `{anc['desc']}` is held: both reach column {c[1]} of archetype {c[0]} and one of them mutably (aliasing instead of a panic)", "aliasing"))
+        elif e == "-":
+            if stack and stack[-1]["kind"] == "ib":
+                stack[-1]["def"] = set()
+        elif e == "X":
+            if stack:
+                stack.pop()
+    m = re.search(r"end=panic:(Borrow\w*Error)", obs)
+    if m and stack:
+        top = stack[-1]
+        refused_before_grant = (not top["acq"]) or top["kind"] == "ib"
+        if refused_before_grant:
+            held = set()
+            for anc in stack[:-1]:
+                if anc["acq"]:
+                    held |= anc["pos"]
+            if not cells_conflict(top["pos"], held):
+                hits.append(hit("C11", seq, no, raw, f"access `{top['desc']}` was refused with {m.group(1)} although nothing it needs is held in a conflicting mode (held: {[a['desc'] for a in stack[:-1] if a['acq']]})", "refused-wrongly"))
+    if "sweep=BAD" in obs:
+        hits.append(hit("C11", seq, no, raw, "after the access tree ended a column is still marked borrowed", "stuck-borrow"))
+    return hits
+
+
+# ----------------------------------------------------------------------------- C13
+
+def map_view(v, tokmap):
+    if ":" not in v or "@" not in v:
+        return v
+    head, rest = v.split(":", 1)
+    out = []
+    for x in rest.split(","):
+        if "." in x:
+            t, val = x.split(".", 1)
+            out.append(tokmap.get(t, t) + "." + val)
+        else:
+            out.append(x)
+    return head + ":" + ",".join(out)
+
+
+def clone_compare(seq, no, raw, var, f_src, f_clone, tokmap, hits):
+    for k, v in f_src.items():
+        if k not in f_clone:
+            continue
+        if map_view(v, tokmap) != f_clone[k]:
+            hits.append(hit("C13", seq, no, raw, f"the same observation `{k}` of handle {var} differs between a world and its untouched clone: {v[:60]} vs {f_clone[k][:60]}", "clone-differs"))
+            return
